@@ -203,7 +203,7 @@ def gen_cases(tier, seed):
         cases.append({'id': f'forest{k}', 'stream': 'forest', 'feature': (k % 7 == 0), 'def': d})
     # coinciding concatenations: state `X` with event `y_z` and state `XY` with event `z` (snake(X)_y_z = snake(XY)_z),
     # likewise for PascalCase (`Xy` + `Zw` vs `XyZ` + `w`): any derived key built by joining two names collides
-    words = ['arm', 'hold', 'release', 'io', 'x2', 'ab', 'c']
+    words = ['arm', 'hold', 'release', 'io', 'x2', 'ab', 'cd']
     kk = 0
     for a_ in words:
         for b_ in words:
